@@ -11,7 +11,7 @@ RULE = ('streams produced by the independent nondeterministic reference encoder 
         'ending exactly at the symbol boundary; one trailing ASCII codeword; EDIFACT unlatch in each of the four positions and the '
         '<= 2 trailing ASCII codewords rule; Base256 with 1-/2-byte length and running to the end of the symbol), Macro 05/06 and FNC1 '
         'prefixes, padding to a real symbol capacity; every stream is first validated by the independent decoder refdec.py; '
-        'non-trivial = stream with at least one non-ASCII run; plus constructed streams on the decoder\'s constants: Base256 fields of 0,1,2,248..252,499..501,750,1000,1500,1554,1555 bytes with explicit length or running to the end, between ASCII runs')
+        'non-trivial = stream with at least one non-ASCII run; plus constructed streams on the decoder\'s constants: Base256 fields of 0,1,2,248..252,499..501,750,1000,1500,1554,1555 bytes with explicit length or running to the end, between ASCII runs; and the end-of-symbol forms (EDIFACT groups with one or two codewords left, C40/Text/X12 triples with one codeword left) with EVERY ASCII character, digit-pair and pad codeword as the tail')
 THEOREMS = 'C04_scripts, C04_macro05, C04_macro06, C04_fnc1, C04_randomisers, C04_c40_tables'
 ASSUMPTIONS = ['refenc.py / refdec.py are independent readings of ISO/IEC 16022 5.2 (each stream is accepted by both before use)']
 
@@ -38,6 +38,7 @@ def gen_cases(rng, tier, ctx):
         cs.append({'line': 'decode_data %s' % fmt_list(cw), 'cat': 'gen-' + (script[-1][0] + '-' + script[-1][2] if script else 'empty'),
                    'expect': exp, 'nonascii': any(m != 'Ascii' for m, _, _ in script)})
     cs += constant_streams(rng, tier)
+    cs += tail_streams(rng, tier)
     return cs
 
 
@@ -75,6 +76,62 @@ def constant_streams(rng, tier):
                     continue        # not a stream both independent readings agree on
                 out.append({'line': 'decode_data %s' % fmt_list(cw), 'cat': 'b256-length-' + ('explicit' if explicit else 'to-end'),
                             'expect': exp, 'nonascii': True})
+    return out
+
+
+def tail_streams(rng, tier):
+    """the end-of-symbol forms with EVERY possible ASCII tail: EDIFACT groups ending with one or two codewords left in
+    the symbol (read as ASCII, no unlatch), C40 / Text / X12 triples ending with one codeword left -- the tail codeword
+    sweeps every ASCII character codeword, every digit-pair codeword and the pad; built directly from the standard and
+    kept only where the independent decoder refdec.py reads the same bytes"""
+    caps = sorted(set(r['data'] for r in common.spec_by_index()))
+    out = []
+
+    def ascii_val(c):
+        return [c - 1] if c <= 128 else [48 + (c - 130) // 10, 48 + (c - 130) % 10]
+
+    def emit(pre, latch, body_cw, body_exp, tail, cat):
+        # ASCII codewords in front so that the stream ends exactly at a symbol capacity
+        need = len(pre) + 1 + len(body_cw) + len(tail)
+        fits = [c for c in caps if c >= need]
+        if not fits or fits[0] - need > 6:
+            return
+        filler = [66] * (fits[0] - need)
+        cw = filler + pre + [latch] + body_cw + tail
+        exp = [65] * len(filler) + [c - 1 for c in pre] + body_exp
+        for k, c in enumerate(tail):
+            if c == 129:
+                # a pad: everything after it must be (randomised) padding
+                cw = cw[:len(cw) - len(tail) + k]
+                cw = refenc.pad(cw, fits[0])
+                break
+            exp = exp + ascii_val(c)
+        r = refdec.decode(cw)
+        if r['error'] or list(r['data']) != exp:
+            return
+        out.append({'line': 'decode_data %s' % fmt_list(cw), 'cat': cat, 'expect': exp, 'nonascii': True})
+    firsts = list(range(1, 130)) + list(range(130, 230))
+    seconds = [66, 124, 129, 142] if tier == 'quick' else [1, 33, 66, 124, 125, 128, 129, 130, 142, 229]
+    for groups in ((1, 2) if tier == 'quick' else (1, 2, 3, 5)):
+        chars = [rng.choice(gen.ALPH['edifact']) for _ in range(4 * groups)]
+        body = []
+        for g in range(0, len(chars), 4):
+            v = [x & 63 for x in chars[g:g + 4]]
+            x = (v[0] << 18) | (v[1] << 12) | (v[2] << 6) | v[3]
+            body += [(x >> 16) & 255, (x >> 8) & 255, x & 255]
+        for c1 in firsts:
+            emit([], 240, body, chars, [c1], 'tail-edifact-1')
+            for c2 in seconds:
+                emit([], 240, body, chars, [c1, c2], 'tail-edifact-2')
+    for latch, alph, text in ((230, gen.ALPH['c40'], False), (239, gen.ALPH['text'], True), (238, gen.ALPH['x12'], None)):
+        for triples in ((1, 2) if tier == 'quick' else (1, 2, 3, 4)):
+            chars = [rng.choice(alph) for _ in range(3 * triples)]
+            vals = [refenc.x12_value(c) for c in chars] if text is None else sum((refenc.c40_values(c, text) for c in chars), [])
+            if len(vals) != len(chars):
+                continue
+            body = sum((refenc.pack3(vals[i:i + 3]) for i in range(0, len(vals), 3)), [])
+            for c1 in firsts:
+                emit([], latch, body, chars, [c1], 'tail-%d-1' % latch)
     return out
 
 
